@@ -6,15 +6,18 @@
 (* symbol table: 39 is ', 124 is |, 10 is LF, and so on.                   *)
 (***************************************************************************)
 EXTENDS Naturals, Sequences, FiniteSets
+LOCAL INSTANCE SequencesExt       \* FoldLeft (evaluated iteratively by TLC, so long strings do not nest evaluations)
 
-Range(s) == { s[i] : i \in 1..Len(s) }
+\* left fold over a sequence: Fold(op, base, <<a, b>>) = op(op(base, a), b)
+Fold(op(_, _), base, s) == FoldLeft(op, base, s)
+
+BytesOf(s) == { s[i] : i \in 1..Len(s) }
 
 \* all strings over alphabet A of length at most n
 StrUpTo(A, n) == UNION { [1..k -> A] : k \in 0..n }
 
 \* concatenation of a sequence of strings
-RECURSIVE Cat(_)
-Cat(ss) == IF Len(ss) = 0 THEN <<>> ELSE Head(ss) \o Cat(Tail(ss))
+Cat(ss) == Fold(LAMBDA acc, x : acc \o x, <<>>, ss)
 
 StartsWith(s, p) == Len(p) <= Len(s) /\ SubSeq(s, 1, Len(p)) = p
 EndsWith(s, p)   == Len(p) <= Len(s) /\ SubSeq(s, Len(s) - Len(p) + 1, Len(s)) = p
